@@ -872,7 +872,12 @@ has_traits_getattro(has_traits_object *obj, PyObject *name)
              != NULL))
         || ((trait = (trait_object *)dict_getitem(obj->ctrait_dict, name))
             != NULL)) {
-        return trait->getattr(trait, obj, name);
+        /* The trait is borrowed from one of the trait dictionaries: keep it
+           alive while user code (default value methods) runs. */
+        Py_INCREF(trait);
+        value = trait->getattr(trait, obj, name);
+        Py_DECREF(trait);
+        return value;
     }
 
     /* Try normal Python attribute access, but if it fails with an
